@@ -15,7 +15,7 @@ NORMALISERS = {'getvector', 'getmatrix'}
 FORM_TESTS = {'isvector', 'ismatrix', 'isscalar', 'isinstance', 'issymbol', 'assertvector', 'assertmatrix',
               'isnumberlist', 'isvectorlist', 'islistof', 'callable', 'type'}
 COPYING = {'array', 'asarray', 'norm'}          # numpy: accept any container form
-OPTION_NAMES = {'unit', 'units', 'order', 'flip', 'check', 'shortest', 'twist', 'norm', 't'}
+OPTION_NAMES = {'unit', 'units', 'order', 'flip', 'check', 'shortest', 'twist', 'norm', 't', 'tol', 'samebody', 'unitq', 'list1', 'matrix'}
 
 # the normaliser roots themselves: they are what maps the five container forms to one
 TRUSTED_ROOTS = {'base/argcheck:getvector', 'base/argcheck:getmatrix', 'base/argcheck:getunit', 'base/argcheck:isvector',
